@@ -20,7 +20,7 @@
 //   * scratch independence: the sweep is repeated with a poisoned tmp and must give the same x';
 //   * ILU family: factors read through apply() on unit vectors (B^-1 column by column, inverted and LU-split
 //     exactly); (L U)_ij = a_ij on the admitted pattern, factors inside the pattern, exact inverse on
-//     tridiagonal / arrow / complete patterns;
+//     tridiagonal / arrow patterns and for ILU(k), k >= n;
 //   * SPAI-1: pattern of M = pattern of A, normal equations (exact where the rational sqrt is exact, else <= 2^-24).
 #include "gen.hpp"
 #include <amgcl/relaxation/damped_jacobi.hpp>
@@ -116,7 +116,7 @@ static bool adm_pattern(const std::string &kind, long k, const Mat &A, Pat &P) {
     if (kind == "ilu0") P = pat_of(A);
     else if (kind == "iluk") P = pat_level(A, k);
     else if (kind == "ilup") { Pat a = pat_of(A); P = a; for (long t = 0; t < k; ++t) P = pat_mul(P, a); }
-    else if (kind == "full") P = Pat(A.n, std::vector<char>(A.n, 1));
+    else if (kind == "ilut") P = Pat(A.n, std::vector<char>(A.n, 1));     // no a-priori pattern: nothing is claimed on it (see lu_flags)
     else return false;
     return true;
 }
@@ -173,7 +173,7 @@ template <class R> static void lu_flags(const std::string &kind, long k, const M
     Pat P; adm_pattern(kind, k, A, P); Dense B = lu_product(F), D = dense(A), L = dense(F.L), U = dense(F.U); long n = A.n;
     onpat = inpat = exact = true;
     for (long i = 0; i < n; ++i) for (long j = 0; j < n; ++j) {
-        bool e = B[i][j].v == D[i][j].v; if (!e) exact = false; if (P[i][j] && !e) onpat = false;
+        bool e = B[i][j].v == D[i][j].v; if (!e) exact = false; if (P[i][j] && !e && kind != "ilut") onpat = false;
         if (!P[i][j] && (L[i][j] != 0 || U[i][j] != 0)) inpat = false;
     }
 }
@@ -184,8 +184,8 @@ static bool real_factors(const std::string &kind, long k, const Mat &Am, Factors
     if (kind == "ilu0") { amgcl::relaxation::ilu0<Backend>::params p; amgcl::relaxation::ilu0<Backend> R(*A, p, bprm); return read_factors(R, *A, F); }
     if (kind == "iluk") { amgcl::relaxation::iluk<Backend>::params p; p.k = (int)k; amgcl::relaxation::iluk<Backend> R(*A, p, bprm); return read_factors(R, *A, F); }
     if (kind == "ilup") { amgcl::relaxation::ilup<Backend>::params p; p.k = (int)k; amgcl::relaxation::ilup<Backend> R(*A, p, bprm); return read_factors(R, *A, F); }
-    if (kind == "full") {   // ILUT without dropping: tau = 0, fill factor p = n  (k is ignored)
-        amgcl::relaxation::ilut<Backend>::params p; p.tau = Q(0); p.p = Q((long)Am.n + 1); amgcl::relaxation::ilut<Backend> R(*A, p, bprm); return read_factors(R, *A, F); }
+    if (kind == "ilut") {   // ILUT with tau = 0 (no threshold dropping) and the default fill factor p = 2  (k is ignored)
+        amgcl::relaxation::ilut<Backend>::params p; p.tau = Q(0); amgcl::relaxation::ilut<Backend> R(*A, p, bprm); return read_factors(R, *A, F); }
     throw bad_input("kind");
 }
 static Mat spai1_M(const Mat &Am) {
@@ -316,7 +316,7 @@ static Result execute(const Toks &t) {
         else if (!mat_eq(F.L, G.L) || !mat_eq(F.U, G.U) || !veq(F.D, G.D)) r.fail(kind + ": the factors in the op line are not what the implementation produces now");
         bool onpat, inpat, exact; lu_flags<int>(kind, k, Am, okF ? F : G, onpat, inpat, exact);
         if (!onpat) r.fail(kind + ": (L U)_ij != a_ij on the admitted pattern"); if (!inpat) r.fail(kind + ": factor entry outside the admitted pattern");
-        bool must_exact = kind == "full" || pattern_tridiag(Am) || pattern_arrow(Am) || (kind == "iluk" && k >= Am.n);
+        bool must_exact = pattern_tridiag(Am) || pattern_arrow(Am) || (kind == "iluk" && k >= Am.n);
         if (must_exact && !exact) r.fail(kind + ": not the exact factorisation although the exact factors fit the pattern");
         r.out = (Line() << onpat << inpat << exact).get(); r.tag("lu_" + kind); if (kind == "iluk" || kind == "ilup") r.tag(kind + std::to_string(k)); if (exact) r.tag("lu_exact");
         struct_tags(Am); r.nontrivial = Am.n > 1 && Am.col.size() > (size_t)Am.n;
@@ -428,10 +428,11 @@ static void generate(Rng &rng, const Opts &o, std::vector<std::string> &lines) {
             QV D(n); for (auto &d : D) d = rng.coin(1, 12) ? Q(0) : rng.rat_nz(5);
             l << "relax_ilu_solve" << L << U << D << gen_vec(rng, n);
         }
-        else if (which <= 18) {       // V-grade: factors of the real ILU(k) / ILUP / ILUT(no dropping) / ILU(0)
-            int fam2 = (int)rng.range(0, 5); A = gen_matrix(rng, n, fam2); n = A.n;
-            static const std::vector<std::string> kinds = { "iluk", "iluk", "ilup", "ilup", "full", "ilu0" };
-            std::string kind = rng.pick(kinds); long kk = kind == "iluk" ? (rng.coin(1, 6) ? n : rng.range(0, 3)) : kind == "ilup" ? rng.range(0, 2) : 0;
+        else if (which <= 18) {       // V-grade: factors of the real ILU(k) / ILUP / ILUT(tau = 0) / ILU(0)
+            static const std::vector<std::string> kinds = { "iluk", "iluk", "ilup", "ilup", "ilut", "ilu0" };
+            std::string kind = rng.pick(kinds);
+            int fam2 = (int)rng.range(0, 5); if (kind == "ilut" && rng.coin(2, 3)) fam2 = rng.coin() ? 3 : 4;      // ILUT: mostly tridiagonal / arrow (the only claim made for it)
+            A = gen_matrix(rng, n, fam2); n = A.n; long kk = kind == "iluk" ? (rng.coin(1, 6) ? n : rng.range(0, 3)) : kind == "ilup" ? rng.range(0, 2) : 0;
             Factors F; bool ok = false; try { ok = real_factors(kind, kk, A, F); } catch (const std::exception&) { ok = false; }
             if (!ok) { F.L = from_rows(n, n, std::vector<std::vector<std::pair<long,Q>>>(n)); F.U = F.L; F.D.assign(n, Q(1)); }    // reported by the oracle when executed
             l << "relax_lu_check" << kind << kk << A << F.L << F.U << F.D;
